@@ -7,7 +7,8 @@ LN = 'n' + 'a123456789' * 9 + 'bcdefghij'      # 100 characters: FLATCC_JSON_PRI
 LU = 'u' + 'b123456789' * 9 + 'cdefghijk'
 assert len(LN) == 100 and len(LU) == 100
 
-E_SYMS = {-3: 'Neg', 0: 'A', 1: 'B', 7: 'LongSymbolNameForAnEnumValueOfFortyTwoChars'}
+E_SYMS = {-3: 'Neg', 0: 'A', 1: 'B', 7: 'LongSymbolNameForAnEnumValueOfFortyTwoChars', 9: 'Sym31_abcdefghijklmnopqrstuvwxy'}
+F31 = 'e31_abcdefghijklmnopqrstuvwxyza'   # 31-character field name of enum type: name and symbol are printed back to back
 C_SYMS = ['Red', 'Green', 'Blue', 'Alpha']
 U_NAMES = {'NONE': 0, 'T': 1, 'S': 2, 'str': 3}
 
@@ -16,8 +17,8 @@ T_FIELDS = [('i', 'int'), ('d', 'double'), ('s', 'string'), ('b', 'b64'), ('bu',
             ('tv', 'tablevec'), ('u', 'union'), ('uv', 'unionvec'), ('st', 'S'), ('q', 'Q'), ('sv', 'Svec'),
             ('strs', 'strvec'), ('iv', 'intvec'), ('e', 'E'), ('c', 'C'), ('ev', 'Evec'), ('cv', 'Cvec'),
             ('nest', 'table'), ('o', 'optint'), ('f', 'float'), ('bo', 'bool'), ('u64', 'int'), ('dv', 'doublevec'),
-            (LN, 'int'), (LU, 'unionvec')]
-SCALAR_DEFAULTS = {'i': 0, 'd': 0.0, 'e': 0, 'c': 1, 'f': 0.0, 'bo': False, 'u64': 0, LN: 0}
+            (LN, 'int'), (LU, 'unionvec'), (F31, 'E')]
+SCALAR_DEFAULTS = {'i': 0, 'd': 0.0, 'e': 0, 'c': 1, 'f': 0.0, 'bo': False, 'u64': 0, LN: 0, F31: 0}
 
 
 def hx(b):
@@ -297,7 +298,7 @@ def gen_T(rng, depth=0, budget=None):
         elif kind == 'intvec': t[name] = [rng.choice([0, -9223372036854775808, 9223372036854775807, rng.randint(-99, 99)]) for _ in range(rng.choice([0, 1, 7, 30]))]
         elif kind == 'doublevec': t[name] = [rng.choice(DOUBLES) for _ in range(rng.choice([0, 1, 5]))]
         elif kind == 'E':
-            v = rng.choice([-3, 1, 7, 5, 2147483647])
+            v = rng.choice([-3, 1, 7, 9, 5, 2147483647])
             t[name] = v
         elif kind == 'C':
             v = rng.choice([2, 3, 15, 4, 16, 255, 0, 9])
@@ -324,18 +325,26 @@ def parse_c(rec):
 
 
 def parse_m(rec):
-    """model record ret:err:viol:term:ntr:trh or H"""
+    """model record ret:err:viol:term:obad:orcleft:ntr:trh or H"""
     if rec == 'H': return {'hang': 1}
     a = rec.split(':')
-    return {'hang': 0, 'ret': int(a[0]), 'err': int(a[1]), 'viol': int(a[2]), 'term': int(a[3]), 'ntr': int(a[4]), 'trh': int(a[5])}
+    return {'hang': 0, 'ret': int(a[0]), 'err': int(a[1]), 'viol': int(a[2]), 'term': int(a[3]), 'obad': int(a[4]),
+            'orc_left': int(a[5]), 'ntr': int(a[6]), 'trh': int(a[7])}
 
 
 def same(c, m):
-    """complete observable agreement of one print between implementation and model"""
+    """agreement of one print between implementation and model on what the property speaks about: termination, return
+    value (length), error flag, stores outside the buffer.  (Bytes and terminator are compared by the harness against the
+    reference text, the reference text against the model text.)"""
     if c is None: return True
     if c['hang'] or m['hang']: return bool(c['hang']) == bool(m['hang'])
-    return (c['ret'] == m['ret'] and c['err'] == m['err'] and (c['over'] > 0) == bool(m['viol']) and
-            c['ntr'] == m['ntr'] and c['trh'] == m['trh'])
+    return c['ret'] == m['ret'] and c['err'] == m['err'] and (c['over'] > 0) == bool(m['viol'])
+
+
+def same_trace(c, m):
+    """diagnostic only: same number of ctx->flush calls at the same p - pflush"""
+    if c is None or c['hang'] or m['hang']: return True
+    return c['ntr'] == m['ntr'] and c['trh'] == m['trh']
 
 
 # ---------------------------------------------------------------- parallel runners
